@@ -63,6 +63,13 @@ def judge(op: L.Op, call, sp=None):
     k, what, info = _judge(op, call, sp)
     if k is not None and not k.startswith("untyped-") and op.name == "Scan" and any(a != 0 for a in call["attrs"].get("scan_input_axes", [])):
         k += ":nonzero-scan-input-axes"  # (a family of its own: the constructor slices axis 0 whatever the attribute says)
+    if k is not None and k.startswith("types-differ:"):
+        given = set()
+        for v in call["vars"]:
+            L.dim_params(v["ty"], given)
+        if any(d.startswith("unk__") for d in given):
+            # a family of its own: the caller's own dimension name looks like a generated one and is stripped with them
+            k = "types-differ:user-dim-named-unk__"
     return k, " ".join(what.split()), info
 
 
